@@ -463,7 +463,10 @@ func (g *graph) addBranch(startNode string, branch *GraphBranch, skipData bool) 
 	}
 	branch.idx = len(g.handlerPreBranch[startNode])
 
-	if startNode != START && g.nodes[startNode].executorMeta.component == ComponentOfPassthrough {
+	// a pass-through start node takes the branch's input type only while its own type is still
+	// unknown; once inferred (through an edge) the type is fixed and the branch is checked against it
+	if startNode != START && g.nodes[startNode].executorMeta.component == ComponentOfPassthrough &&
+		g.nodes[startNode].cr.inputType == nil {
 		g.nodes[startNode].cr.inputType = branch.inputType
 		g.nodes[startNode].cr.outputType = branch.inputType
 		g.nodes[startNode].cr.genericHelper = branch.genericHelper.forPredecessorPassthrough()
